@@ -785,7 +785,9 @@ theorem splitLine_append_ws (f : Nat) (a ws b : List Char) (ha : '"' ∉ a) (hne
           simp
 
 theorem scanAt_hash (b : List Char) : scanAt ('#' :: b) = some 1 := by
-  have h1 : scanTimePattern ('#' :: b) = none := scanTimePattern_of_tag_other b (by decide)
+  have h1 : scanTimePattern ('#' :: b) = none := by
+    have ht : TP.tag '#' = .ws := by decide
+    simp [scanTimePattern, ht, TP.regexMatch, TP.hourAlts]
   have h2 : scanCmp ('#' :: b) = none := scanCmp_none b (by decide)
   have h3 : scanString ('#' :: b) = none := scanString_none b (by decide)
   have h4 : scanNumber ('#' :: b) = none := scanNumber_none b (by decide) (by decide)
@@ -843,8 +845,8 @@ theorem scanAt_soloPunct (p : Char) (rest : List Char) (hp : p ∈ soloPunct) :
     scanAt (p :: rest) = some 1 := by
   have h1 : scanTimePattern (p :: rest) = none := by
     simp only [scanTimePattern, List.map_cons]
-    have : ∀ q ∈ soloPunct, TP.tag q = .other ∨ TP.tag q = .colon := by decide
-    rcases this p hp with h | h <;> rw [h] <;> simp [TP.regexMatch, TP.hourAlts]
+    have : ∀ q ∈ soloPunct, TP.tag q = .other ∨ TP.tag q = .colon ∨ TP.tag q = .ws := by decide
+    rcases this p hp with h | h | h <;> rw [h] <;> simp [TP.regexMatch, TP.hourAlts]
   have hne : ∀ q ∈ soloPunct, q ≠ '=' ∧ q ≠ '<' ∧ q ≠ '>' ∧ q ≠ '!' ∧ q ≠ '"' ∧ q ≠ '.' ∧
       isDigit q = false ∧ isNameStart q = false ∧
       "[](){}+-*<>/%#:^".toList.contains q = true := by decide
@@ -936,7 +938,9 @@ theorem tag_cases_of_endsNumber {p : Char} {rest : List Char} (h : endsNumber p 
     rw [if_neg hs, if_neg h3, if_neg hd]
     split
     · right; left; rfl
-    · left; rfl
+    · split
+      · right; left; rfl
+      · left; rfl
 
 theorem scanAt_digits_then (ds : List Char) (p : Char) (rest : List Char) (hne : ds ≠ [])
     (hds : ds.all isDigit = true) (hp : endsNumber p rest) :
